@@ -25,7 +25,8 @@ def build_blocks(tier, seed):
         mem3, _ = gen.enumerate_blocks(gen.mem_vocab(small=True), [["*", "*", "*"]], 4)
         sto, _ = gen.enumerate_blocks(gen.sto_vocab(), [["*"], ["*", "*"]], 4)
         sto3, _ = gen.enumerate_blocks(gen.sto_vocab(), [["*", "*", "*"]], 4)
-        xs = mem + sto + corpus.sample(mem3, 300, seed) + corpus.sample(sto3, 200, seed)
+        m3, _ = gen.enumerate_blocks(gen.mem3_vocab(), [["*", "*", "*"]], 4)
+        xs = mem + sto + m3 + corpus.sample(mem3, 200, seed) + corpus.sample(sto3, 150, seed)
         sim = []
         for v, n in ((gen.mem_vocab(), 40), (gen.sto_vocab(), 25), (gen.mem_vocab(small=True) + gen.sto_vocab(), 35)):
             b, _ = gen.enumerate_blocks(v, [["*"] * 6], 5, simulate=(n, 7), seed=seed)
